@@ -581,6 +581,13 @@ class Models:
     def str_eq(self, l, r):
         if isinstance(l, str) and isinstance(r, str):
             return l == r
+        from .values import TextOf
+        if isinstance(l, SStr) and isinstance(r, SStr) and len(l.pieces) == 1 and len(r.pieces) == 1 \
+                and isinstance(l.pieces[0], TextOf) and isinstance(r.pieces[0], TextOf):
+            a, b = l.pieces[0], r.pieces[0]
+            if (a.codec, a.errors) != (b.codec, b.errors):
+                return False  # different decoders: equality of the texts is not a consequence of anything known
+            return self.rope_eq(a.rope, b.rope)  # same decoder: equal bytes give equal text
         m = self.str_match(l, r)
         if m is False:
             return False
@@ -693,6 +700,18 @@ class Models:
             raise Unsupported("bytes subsequence containment")
         if isinstance(container, (str, SStr)):
             raise Unsupported("substring test on symbolic string")
+        if isinstance(container, DictView):
+            fields = self.st.rec(container.ref)["fields"]
+            if isinstance(item, str):
+                return item in fields
+            if isinstance(item, SStr) and len(item.pieces) == 1 and isinstance(item.pieces[0], Opaque):
+                # unknown name: in the instance dict or not - the same answer every time on this path
+                memo = self.st.ghost.setdefault("in_dict", {})
+                key = id(item.pieces[0])
+                if key not in memo:
+                    memo[key] = (self.st.choice(2, "name-in-dict") == 1, item)
+                return memo[key][0]
+            raise Unsupported("`in` on __dict__ with a structured symbolic name")
         if not is_symv(container) and not is_symv(item):
             try:
                 return item in container
@@ -1335,6 +1354,25 @@ class Models:
                 return None
             if isinstance(nm, str):
                 self.raise_(AttributeError, nm)
+            if isinstance(nm, SStr) and len(nm.pieces) == 1 and isinstance(nm.pieces[0], Opaque):
+                # a wholly unknown name: it names one of the object's fields (which is then deleted) or nothing
+                # (AttributeError); candidates contradicting what the path learnt about the name are dropped
+                cands = list(rec["fields"]) + [None]
+                memo = self.st.ghost.get("str_affix", {})
+                for (pid, how, affixes), (ans, _s) in memo.items():
+                    if pid == id(nm.pieces[0]):
+                        cands = [c for c in cands if c is None or any(getattr(c, how)(a) for a in affixes) == ans]
+                indict = self.st.ghost.get("in_dict", {}).get(id(nm.pieces[0]))
+                if indict is not None:
+                    cands = [c for c in cands if (c is not None) == indict[0]]
+                if not cands:
+                    raise PathEnd()
+                pick = cands[self.st.choice(len(cands), "unknown-attribute-name")]
+                if pick is None:
+                    self.raise_(AttributeError, "no such attribute")
+                del rec["fields"][pick]
+                self.st.record_write((self_ref.id, pick))
+                return None
             raise Unsupported("delattr symbolic name")
         if name == "__init__":
             return None
@@ -1550,9 +1588,13 @@ class Models:
             errors = args[1] if len(args) > 1 else kwargs.get("errors", "strict")
             enc = args[0] if args else kwargs.get("encoding", "utf-8")
             self.st.ghost.setdefault("codec_log", []).append(("decode", enc, errors))
+            from .values import TextOf, norm_codec
             if errors in ("backslashreplace", "replace", "ignore"):
-                return SStr((Opaque("decoded"),))
-            raise Unsupported("decode strict of symbolic bytes")
+                return SStr((TextOf(rope, norm_codec(enc), errors),))
+            # strict decoding of bytes the engine knows nothing about: they are valid in that codec, or they are not
+            if self.st.choice(2, "decode-strict") == 0:
+                self.raise_(UnicodeDecodeError, str(enc), b"", 0, 1, "invalid start byte")
+            return SStr((TextOf(rope, norm_codec(enc), errors),))
         if name == "replace":
             raise Unsupported("bytes.replace")
         if name in ("rstrip", "lstrip", "strip"):
@@ -1651,13 +1693,19 @@ class Models:
             errors = args[1] if len(args) > 1 else kwargs.get("errors", "strict")
             enc = args[0] if args else kwargs.get("encoding", "utf-8")
             self.st.ghost.setdefault("codec_log", []).append(("encode", enc, errors))
+            from .values import norm_codec
+            memo = self.st.ghost.setdefault("encoded", {})
+            mkey = (tuple(id(pc) for pc in s.pieces), norm_codec(enc), errors)
+            if mkey in memo:
+                return memo[mkey][0]  # encoding is a function of (text, codec, error handler)
             rope = SBytes.view(Base("enc"), 0, z3.Int(fresh_name("enclen")))
+            memo[mkey] = (rope, s)
             self.st.assume(mk_bool(zint(rope.length()) >= 0))
             if errors == "strict":
                 raise Unsupported("strict encode of symbolic str")
             return rope
-        if name in ("format", "join"):
-            return SStr((Opaque(name),))
+        if name in ("format", "join", "strip", "lstrip", "rstrip", "upper", "lower", "title", "replace"):
+            return SStr((Opaque(name),))  # some text (nothing is claimed about its contents)
         if name in ("startswith", "endswith") and len(args) == 1 and isinstance(args[0], (str, tuple)) \
                 and all(isinstance(x, str) for x in (args[0] if isinstance(args[0], tuple) else (args[0],))):
             return self.str_affix(s, name, args[0])
